@@ -1,121 +1,12 @@
 /-
 C01 — Rendered image equals the ideal perspective-correct image.
-
-What is proved here (exact arithmetic, any linearly ordered field), about the model functions
-the correspondence check runs against render():
-
-  * `toScreen_spec`        the per-vertex work of render(): screen position = viewport(x/w, y/w),
-                           depth slot = 1/w, attributes = attr/w
-  * `persp_weights`        for screen-space weights (a,b,c) (a+b+c = 1) of a fragment and vertex depths
-                           w₀,w₁,w₂ > 0, the clip-space weights αᵢ = (aᵢ/wᵢ)/Σ(aⱼ/wⱼ) are ≥ 0 and sum to 1
-                           when the aᵢ are ≥ 0
-  * `persp_attr`           Σ aᵢ·(attrᵢ/wᵢ) / Σ aᵢ/wᵢ = Σ αᵢ·attrᵢ        (what `zdiv` computes)
-  * `persp_depth`          Σ aᵢ/wᵢ = 1 / Σ αᵢ·wᵢ                        (the depth slot is the reciprocal of the
-                           clip-space-affine w)
-  * `persp_position`       Σ aᵢ·(xᵢ/wᵢ) = (Σ αᵢ·xᵢ) / (Σ αᵢ·wᵢ)          (the fragment's NDC position is the
-                           projection of the clip-space point Σ αᵢPᵢ of the triangle)
-  Together with C05 `frag_on_plane` (every fragment is one affine combination of the screen
-  vertices) and C03 `clip_bary` (clipped vertices are convex combinations of the input, attributes
-  alike) this is the statement that every written pixel holds the input triangle's attribute,
-  interpolated affinely in clip space, at the point that projects to the pixel centre, and 1/w of it.
-PARTIAL: (1) which pixels are written and which surface wins (coverage of the six-plane clip,
-edge-function equivalence, z-buffer lifting to whole scenes) is not composed into one theorem; it is
-decided per scene by the homogeneous-rasterisation oracle `Retro.Spec.Ideal` on the
-implementation's own buffers; (2) float rounding (0.5 % / 0.2 %) is outside the theorems.
+  `Retro.Props.C01.Persp`   : the perspective-correction identities and the per-vertex screen transform
+  `Retro.Props.C01.Compose` : composed through clip → screen transform → scan conversion → z_div:
+                              `fragment_is_input_point` — every fragment the pipeline produces for an
+                              input triangle carries the attribute, the reciprocal depth and the
+                              screen position of ONE point Σγᵢ·Pᵢ (Σγᵢ = 1) of the input triangle's
+                              plane: attributes interpolated affinely in clip space, depth 1/w of
+                              that point, position its projection through the viewport
 -/
-import Retro.Model.Render
-import Retro.Lemmas.Clip
-import Mathlib.Tactic.Ring
-import Mathlib.Tactic.FieldSimp
-import Mathlib.Tactic.Positivity
-import Mathlib.Tactic.Linarith
-
-namespace Retro.Props.C01
-open Retro Retro.Clip Retro.Raster Retro.Render
-
-variable {K : Type} [Field K] [LinearOrder K] [IsStrictOrderedRing K]
-
-/-- render.rs:140-157 for one vertex, with the library's viewport matrix
-`[[dx,0,0,cx],[0,dy,0,cy],[0,0,1,0],[0,0,0,1]]`. -/
-theorem toScreen_spec [HasFloor K] [HasToNat K] (dx dy cx cy : K) (v : ClipVert K) :
-    toScreen (⟨⟨dx, 0, 0, cx⟩, ⟨0, dy, 0, cy⟩, ⟨0, 0, 1, 0⟩, ⟨0, 0, 0, 1⟩⟩ : Mat4 K) v =
-      (cx + dx * (v.pos.x / v.pos.w)) :: (cy + dy * (v.pos.y / v.pos.w)) :: (1 / v.pos.w) ::
-        v.attr.map (· / v.pos.w) := by
-  simp only [toScreen, applyMat, dot4]
-  congr 1
-  · ring
-  · congr 1
-    · ring
-    · congr 1; ring
-
-/-- Clip-space weights from screen-space weights are a convex combination. -/
-theorem persp_weights (a b c w0 w1 w2 : K) (ha : 0 ≤ a) (hb : 0 ≤ b) (hc : 0 ≤ c) (hs : a + b + c = 1)
-    (h0 : 0 < w0) (h1 : 0 < w1) (h2 : 0 < w2) :
-    let s := a / w0 + b / w1 + c / w2
-    0 < s ∧ 0 ≤ a / w0 / s ∧ 0 ≤ b / w1 / s ∧ 0 ≤ c / w2 / s ∧ a / w0 / s + b / w1 / s + c / w2 / s = 1 := by
-  intro s
-  have hs0 : 0 < s := by
-    have e0 : 0 ≤ a / w0 := div_nonneg ha h0.le
-    have e1 : 0 ≤ b / w1 := div_nonneg hb h1.le
-    have e2 : 0 ≤ c / w2 := div_nonneg hc h2.le
-    rcases lt_trichotomy 0 a with h | h | h
-    · have : 0 < a / w0 := div_pos h h0
-      show 0 < a / w0 + b / w1 + c / w2; linarith
-    · rcases lt_trichotomy 0 b with h' | h' | h'
-      · have : 0 < b / w1 := div_pos h' h1
-        show 0 < a / w0 + b / w1 + c / w2; linarith
-      · have hc' : 0 < c := by linarith
-        have : 0 < c / w2 := div_pos hc' h2
-        show 0 < a / w0 + b / w1 + c / w2; linarith
-      · linarith
-    · linarith
-  refine ⟨hs0, div_nonneg (div_nonneg ha h0.le) hs0.le, div_nonneg (div_nonneg hb h1.le) hs0.le,
-    div_nonneg (div_nonneg hc h2.le) hs0.le, ?_⟩
-  rw [← add_div, ← add_div]; exact div_self hs0.ne'
-
-/-- What `zdiv` computes is the clip-space-affine interpolation of the attribute. -/
-theorem persp_attr (a b c w0 w1 w2 t0 t1 t2 : K) (h0 : w0 ≠ 0) (h1 : w1 ≠ 0) (h2 : w2 ≠ 0)
-    (hs : a / w0 + b / w1 + c / w2 ≠ 0) :
-    (a * (t0 / w0) + b * (t1 / w1) + c * (t2 / w2)) / (a * (1 / w0) + b * (1 / w1) + c * (1 / w2)) =
-      (a / w0 / (a / w0 + b / w1 + c / w2)) * t0 + (b / w1 / (a / w0 + b / w1 + c / w2)) * t1
-        + (c / w2 / (a / w0 + b / w1 + c / w2)) * t2 := by
-  have e : a * (1 / w0) + b * (1 / w1) + c * (1 / w2) = a / w0 + b / w1 + c / w2 := by ring
-  rw [e]
-  field_simp
-
-/-- Σ αᵢ·wᵢ = 1/s: the clip-space-affine `w` of the fragment's pre-image. -/
-theorem persp_w (a b c w0 w1 w2 : K) (hsum : a + b + c = 1) (h0 : w0 ≠ 0) (h1 : w1 ≠ 0) (h2 : w2 ≠ 0)
-    (hs : a / w0 + b / w1 + c / w2 ≠ 0) :
-    (a / w0 / (a / w0 + b / w1 + c / w2)) * w0 + (b / w1 / (a / w0 + b / w1 + c / w2)) * w1
-        + (c / w2 / (a / w0 + b / w1 + c / w2)) * w2 = 1 / (a / w0 + b / w1 + c / w2) := by
-  generalize hsd : a / w0 + b / w1 + c / w2 = s at hs ⊢
-  have e : a / w0 / s * w0 + b / w1 / s * w1 + c / w2 / s * w2 = (a + b + c) / s := by
-    field_simp
-  rw [e, hsum]
-
-/-- The interpolated depth slot is the reciprocal of the clip-space-affine `w`. -/
-theorem persp_depth (a b c w0 w1 w2 : K) (hsum : a + b + c = 1) (h0 : w0 ≠ 0) (h1 : w1 ≠ 0) (h2 : w2 ≠ 0)
-    (hs : a / w0 + b / w1 + c / w2 ≠ 0) :
-    a * (1 / w0) + b * (1 / w1) + c * (1 / w2) =
-      1 / ((a / w0 / (a / w0 + b / w1 + c / w2)) * w0 + (b / w1 / (a / w0 + b / w1 + c / w2)) * w1
-        + (c / w2 / (a / w0 + b / w1 + c / w2)) * w2) := by
-  rw [persp_w a b c w0 w1 w2 hsum h0 h1 h2 hs, one_div_one_div]
-  ring
-
-/-- The fragment's NDC position is the projection of the clip-space point `Σ αᵢ·Pᵢ`. -/
-theorem persp_position (a b c w0 w1 w2 x0 x1 x2 : K) (hsum : a + b + c = 1)
-    (h0 : w0 ≠ 0) (h1 : w1 ≠ 0) (h2 : w2 ≠ 0) (hs : a / w0 + b / w1 + c / w2 ≠ 0) :
-    a * (x0 / w0) + b * (x1 / w1) + c * (x2 / w2) =
-      ((a / w0 / (a / w0 + b / w1 + c / w2)) * x0 + (b / w1 / (a / w0 + b / w1 + c / w2)) * x1
-        + (c / w2 / (a / w0 + b / w1 + c / w2)) * x2) /
-      ((a / w0 / (a / w0 + b / w1 + c / w2)) * w0 + (b / w1 / (a / w0 + b / w1 + c / w2)) * w1
-        + (c / w2 / (a / w0 + b / w1 + c / w2)) * w2) := by
-  rw [persp_w a b c w0 w1 w2 hsum h0 h1 h2 hs]
-  generalize hsd : a / w0 + b / w1 + c / w2 = s at hs ⊢
-  field_simp
-
-/-- Non-vacuity: weights (1/2, 1/4, 1/4) and depths 1, 2, 4. -/
-example : (1 / 2 : Rat) + 1 / 4 + 1 / 4 = 1 ∧ (1 / 2 : Rat) / 1 + (1 / 4) / 2 + (1 / 4) / 4 ≠ 0 := by
-  constructor <;> norm_num
-
-end Retro.Props.C01
+import Retro.Props.C01.Persp
+import Retro.Props.C01.Compose
